@@ -9,7 +9,7 @@ VERIF = os.path.dirname(os.path.dirname(os.path.abspath(__file__)))
 PRE = "/tmp/verif_preseed"
 only = sys.argv[1:] or None
 rows = []
-for d in sorted(glob.glob(os.path.join(VERIF, "seeded", "*"))):
+for d in sorted(glob.glob(os.path.join(VERIF, "seeded", "C*"))):
     sid = os.path.basename(d)
     patch = os.path.join(d, "patch.diff")
     if not os.path.exists(patch):
